@@ -417,7 +417,7 @@ StrictNarrowed(B, opt, a, b) ==
 
 -----------------------------------------------------------------------------
 (* Part 3: the state machine *)
-CONSTANTS Family,        \* generator of input tables: "const" | "nested" | "long" | "func" | "func-small" | "mut"
+CONSTANTS Family,        \* generator of input tables: "const" | "nested" | "long" | "func" | "func-small" | "mut" | "super"
           OptSet,        \* names of the option settings explored (see OptRec)
           CheckDen,      \* BOOLEAN: evaluate the denotational invariants (off for pure export runs)
           Export         \* BOOLEAN: print every input table (with its options) as a CASE line
@@ -508,6 +508,14 @@ TypesLong == {TUnion(m) : m \in PickN(LongSeq, 4)} \cup {TUnion(m) : m \in PickN
                    TUnion(<<ListOf(TUnion(<<IntT, BoolT>>)), ListOf(TUnion(<<StrT, NoneT>>))>>),
                    TUnion(<<ListOf(TUnion(<<IntT, BoolT>>)), ListOf(TUnion(<<StrT, NoneT>>)), TAny>>)}
 
+(* generic containers next to DIFFERENTLY parameterised superclasses (absorption by a superclass  *)
+(* must compare the type arguments), bare superclasses, and a class leaf under a generic base    *)
+SeqT(t) == TGen("typing.Sequence", <<t>>)
+SuperSeq == <<ListOf(IntT), ListOf(StrT), HTup(IntT), TTuple(<<IntT, StrT>>), StrT, TCls("builtins.list"),
+              SeqT(IntT), SeqT(StrT), SeqT(TAny), TCls("typing.Sequence"), TGen("G", <<IntT>>), TCls("G"),
+              Obj, NoneT, TCls("B"), TCls("A")>>
+TypesSuper == Unions2(SuperSeq) \cup Unions3(SubSeq(SuperSeq, 1, 10))
+
 Param(n, t) == [name |-> n, kind |-> "regular", type |-> t, mut |-> TNone]
 Sig(ps, r) == [params |-> ps, ret |-> r, exc |-> <<>>]
 ConstTab(t) == [consts |-> <<[name |-> "x", type |-> t]>>, funcs |-> <<>>]
@@ -545,6 +553,8 @@ Tables ==
     [] Family = "func" -> FuncTabs(DOMAIN PSeq, DOMAIN RSeq)
     [] Family = "func-small" -> FuncTabs({2, 3, 4, 5, 7, 8}, {1, 3, 4, 6, 7, 9})
     [] Family = "mut" -> MutTabs
+    [] Family = "super" -> {ConstTab(t) : t \in TypesSuper}
+                           \cup {FuncTab("", <<Sig(<<Param("x", t)>>, t)>>) : t \in Unions2(SubSeq(SuperSeq, 1, 10))}
 
 (* --- actions: one per pass of optimize.Optimize *)
 Ctx0 == PassCtx(hier, DOMAIN hier, opt.max_union, resolved)
